@@ -365,3 +365,18 @@ def gen_spec(rng, *, max_n=10, allow_filter=True, allow_sink=True,
 
 def has_rebatch(spec):
   return any(o['op'] == 'rebatch' for o in spec['ops'])
+
+
+# ---- distributed helpers -------------------------------------------------------
+def define_sharded(spec, shard_index=0, num_shards=1, num_threads=0):
+  """Pipeline definition shipped to workers (module-level => picklable)."""
+  ds = sequence_source(spec).shard(shard_index, num_shards)
+  return build(spec, num_threads=num_threads, data_source=ds)
+
+
+def define_failing(spec, fail_shard, kind, shard_index=0, num_shards=1):
+  """Like define_sharded, but shard `fail_shard` raises an application error."""
+  if shard_index == fail_shard:
+    raise {'ValueError': ValueError, 'KeyError': KeyError}[kind](
+        f'application error in shard {shard_index}')
+  return define_sharded(spec, shard_index, num_shards)
